@@ -790,6 +790,106 @@ theorem sound_tableLoop {toks : List Tok} {keys : List Tok} {consume : Bool} {b 
   intro s hs
   exact good_tableLoop he mb hprog fuel .falsy s hs (by omega)
 
+theorem curr_some_lt {toks : List Tok} {i : Nat} {t : Tok} (h : curr toks i = some t) : i < toks.length := curr_lt h
+
+theorem skipTok_spec (toks : List Tok) (s : St) (hs : s.idx ≤ toks.length) :
+    s.idx ≤ (skipTok toks s).idx ∧ (skipTok toks s).idx ≤ toks.length ∧ (skipTok toks s).steps ≤ s.steps + 1 ∧
+      (s.idx < toks.length → s.idx < (skipTok toks s).idx) := by
+  unfold skipTok
+  split
+  · rename_i h
+    have := curr_isSome_lt h
+    simp [bump]; omega
+  · rename_i h
+    refine ⟨Nat.le_refl _, hs, by omega, ?_⟩
+    intro hlt
+    have : (curr toks s.idx).isSome = true := by
+      unfold curr; simp [List.getElem?_eq_getElem hlt]
+    exact absurd this h
+
+/-- an option loop `while self._curr and not self._match(close): x = p(); …` around ANY element method that honours the
+    contract and consumes input whenever it reports success, whose failure branch either consumes the offending token
+    (shape 1) or breaks after raise_error (shape 2): finishes within (r+1)·(b r + 1) steps AT EVERY ERROR LEVEL -/
+theorem good_optionLoop {toks : List Tok} {close : Tok} {mode : OnFail} {b : Nat → Nat} {p : P}
+    (hp : Sound toks.length b p) (mb : BMono b) (hc : Consuming toks.length p) (hm : mode ≠ .relyOnRaise) :
+    ∀ (fuel : Nat) (s : St), s.idx ≤ toks.length → toks.length - s.idx < fuel →
+      Good toks.length (fun r => (r + 1) * (b r + 1)) s (optionLoop toks close mode p fuel s) := by
+  intro fuel
+  induction fuel with
+  | zero => intro s _ h; omega
+  | succ fuel ih =>
+    intro s hs hf
+    unfold optionLoop
+    cases hcur : curr toks s.idx with
+    | none => simp only; exact ⟨by simp, hs, by simp, by simp, by simp⟩
+    | some t =>
+      simp only
+      have hlt := curr_lt hcur
+      obtain ⟨kk, hkk⟩ : ∃ kk, toks.length - s.idx = kk + 1 := ⟨toks.length - s.idx - 1, by omega⟩
+      split
+      · refine ⟨by simp [bump], by simp [bump]; omega, ?_, by simp, by simp⟩
+        simp only [bump, hkk, Nat.succ_mul]; omega
+      · have h1 := hp s hs
+        cases hps : p s with
+        | mk o s1 =>
+          rw [hps] at h1
+          obtain ⟨a1, a2, a3, a4, a5⟩ := h1
+          simp only at a1 a2 a3 a4 a5
+          rw [hkk] at a3
+          cases o with
+          | ret v =>
+            simp only
+            split
+            · rename_i hv
+              have hprog := hc s v s1 hs hps hv
+              obtain ⟨c1, c2, c3, c4, c5⟩ := ih s1 a2 (by omega)
+              simp only at c3
+              refine ⟨by omega, c2, ?_, c4, c5⟩
+              have m1 := mb (toks.length - s1.idx) (kk + 1) (by omega)
+              have m3 : (toks.length - s1.idx + 1) * (b (toks.length - s1.idx) + 1) ≤ (kk + 1) * (b (kk + 1) + 1) :=
+                Nat.mul_le_mul (by omega) (by omega)
+              simp only [hkk]
+              exact table_arith (S0 := s.steps) (Nat.le_succ _) (by omega) c3 m3
+            · cases mode with
+              | skip =>
+                simp only
+                obtain ⟨k1, k2, k3, k4⟩ := skipTok_spec toks s1 a2
+                have hprog : s.idx < (skipTok toks s1).idx := by
+                  by_cases h : s1.idx < toks.length
+                  · have := k4 h; omega
+                  · omega
+                obtain ⟨c1, c2, c3, c4, c5⟩ := ih (skipTok toks s1) k2 (by omega)
+                simp only at c3
+                refine ⟨by omega, c2, ?_, c4, c5⟩
+                have m1 := mb (toks.length - (skipTok toks s1).idx) (kk + 1) (by omega)
+                have m3 : (toks.length - (skipTok toks s1).idx + 1) * (b (toks.length - (skipTok toks s1).idx) + 1)
+                    ≤ (kk + 1) * (b (kk + 1) + 1) := Nat.mul_le_mul (by omega) (by omega)
+                simp only [hkk]
+                have e : (kk + 1 + 1) * (b (kk + 1) + 1) = (kk + 1) * (b (kk + 1) + 1) + (b (kk + 1) + 1) := Nat.succ_mul _ _
+                rw [e]; omega
+              | breakAfterRaise =>
+                simp only [failThen, failS]
+                by_cases hl : s1.lvl = .immediate
+                · simp only [hl, if_true]
+                  refine ⟨a1, a2, ?_, by simp, by simp⟩
+                  simp only [hkk, Nat.succ_mul]; omega
+                · simp only [hl, if_false]
+                  refine ⟨a1, a2, ?_, by simp, by simp⟩
+                  simp only [hkk, Nat.succ_mul]; omega
+              | relyOnRaise => exact absurd rfl hm
+          | raised =>
+            refine ⟨a1, a2, ?_, by simp, by simp⟩
+            simp only [hkk, Nat.succ_mul]; omega
+          | internal => exact absurd rfl a5
+          | diverged => exact absurd rfl a4
+
+theorem sound_optionLoop {toks : List Tok} {close : Tok} {mode : OnFail} {b : Nat → Nat} {p : P} {fuel : Nat}
+    (hp : Sound toks.length b p) (mb : BMono b) (hc : Consuming toks.length p) (hm : mode ≠ .relyOnRaise)
+    (hf : toks.length < fuel) :
+    Sound toks.length (fun r => (r + 1) * (b r + 1)) (fun s => optionLoop toks close mode p fuel s) := by
+  intro s hs
+  exact good_optionLoop hp mb hc hm fuel s hs (by omega)
+
 theorem bound_mono (p : Comb) : BMono p.bound := by
   induction p with
   | eps | nothing | tok | tokSet | peek | pair | anyTok | advance | fail => intro a c _; simp [Comb.bound]
@@ -809,6 +909,9 @@ theorem bound_mono (p : Comb) : BMono p.bound := by
   | ifTok ts p q ihp ihq =>
     intro a c h; have := ihp a c h; have := ihq a c h; simp only [Comb.bound]; omega
   | tableLoop keys p cns ih =>
+    intro a c h; have := ih a c h; simp only [Comb.bound]
+    exact Nat.mul_le_mul (by omega) (by omega)
+  | optionLoop cl p mode ih =>
     intro a c h; have := ih a c h; simp only [Comb.bound]
     exact Nat.mul_le_mul (by omega) (by omega)
 
@@ -917,6 +1020,10 @@ theorem run_sound (toks : List Tok) (fuel : Nat) (hf : toks.length < fuel) (p : 
     simp only [Comb.wf, beq_iff_eq] at hw
     subst hw
     exact ⟨sound_peekAt toks k t, by simp [Comb.consuming]⟩
+  | optionLoop cl p mode ih =>
+    simp only [Comb.wf, Bool.and_eq_true, bne_iff_ne, ne_eq] at hw
+    obtain ⟨sp, cp⟩ := ih hw.1.1
+    exact ⟨sound_optionLoop sp (bound_mono p) (cp hw.1.2) hw.2 hf, by simp [Comb.consuming]⟩
   | ifTok ts p q ihp ihq =>
     simp only [Comb.wf, Bool.and_eq_true] at hw
     obtain ⟨sp, _⟩ := ihp hw.1
@@ -1266,7 +1373,7 @@ theorem run_still (toks : List Tok) (fuel : Nat) (p : Comb) (h : p.still = true)
     split at hr
     · simp at hr
     · injection hr with _ e2; subst e2; rfl
-  | tok | tokSet | pair | anyTok | advance | csv | wrapped | many | restOfChunk | ifTok | tableLoop =>
+  | tok | tokSet | pair | anyTok | advance | csv | wrapped | many | restOfChunk | ifTok | tableLoop | optionLoop =>
     simp [Comb.still] at h
   | textSeq ts adv =>
     simp only [Comb.still, Bool.not_eq_true'] at h
@@ -1313,7 +1420,7 @@ theorem run_total_val (toks : List Tok) (fuel : Nat) (p : Comb) (h : p.total = t
   | wrapped p o ih =>
     simp only [Comb.total] at h
     exact wrapped_total _ _ _ (ih h)
-  | nothing | tok | tokSet | peek | pair | anyTok | advance | fail | tryParse | csv | many | textSeq | tableLoop | peekAt =>
+  | nothing | tok | tokSet | peek | pair | anyTok | advance | fail | tryParse | csv | many | textSeq | tableLoop | peekAt | optionLoop =>
     simp [Comb.total] at h
   | restOfChunk =>
     intro s v s' hr; simp only [run, restOfChunk] at hr
@@ -1358,7 +1465,7 @@ theorem run_restoring (toks : List Tok) (fuel : Nat) (p : Comb) (h : p.restoring
     split at hr
     · simp at hr
     · injection hr with _ e2; subst e2; rfl
-  | advance | csv | wrapped | many | tableLoop => simp [Comb.restoring] at h
+  | advance | csv | wrapped | many | tableLoop | optionLoop => simp [Comb.restoring] at h
   | textSeq ts adv => exact textSeq_restoring toks ts adv
   | peekAt k t g =>
     intro s v s' hr _
@@ -1441,6 +1548,13 @@ theorem bound_le_poly (p : Comb) (r : Nat) : p.bound r ≤ p.coeff * (r + 1) ^ p
     have h5 := one_le_pow r (max p.depth q.depth)
     rw [Nat.add_mul, Nat.add_mul]
     omega
+  | optionLoop cl p mode ih =>
+    simp only [Comb.bound, Comb.coeff, Comb.depth]
+    have h1 := one_le_pow r p.depth
+    have h2 : p.bound r + 1 ≤ (p.coeff + 1) * (r + 1) ^ p.depth := by rw [Nat.add_mul]; omega
+    calc (r + 1) * (p.bound r + 1) ≤ (r + 1) * ((p.coeff + 1) * (r + 1) ^ p.depth) := Nat.mul_le_mul_left _ h2
+      _ = (p.coeff + 1) * (r + 1) ^ (p.depth + 1) := by
+        rw [Nat.pow_succ, Nat.mul_comm (r + 1), Nat.mul_assoc]
   | tableLoop keys p cns ih =>
     simp only [Comb.bound, Comb.coeff, Comb.depth]
     have h1 := one_le_pow r p.depth
